@@ -127,6 +127,13 @@ class Prior(HoloPyObject):
                 args = [arg.item() if isinstance(arg, np.generic) else arg
                         for arg in args]
                 return _ARITHMETIC_UFUNCS[ufunc](*args)
+            if not all(isinstance(arg, (Number, Prior, np.ndarray, list, tuple))
+                       for arg in args):
+                # as the operators do: refused here, not when the derived
+                # prior is first evaluated
+                raise TypeError("Cannot apply {} to a prior and objects of "
+                                "type {}".format(ufunc.__name__, [
+                                    type(arg).__name__ for arg in args]))
             return TransformedPrior(ufunc, args, name)
         else:
             raise TypeError('Could not apply numpy ufunc to Prior object. '
